@@ -193,6 +193,93 @@ func serverBudgetProbes(c *Ctx) {
 	}
 }
 
+// contextShapeProbes (oracle only): the peer's timeout header is parsed, validated and honoured
+// whatever state the request's own context is in and whatever the serving http.Server is
+// configured with:
+//
+//	(a) the request context is already cancelled when ServeHTTP is entered (the client went away
+//	    while the request was queued): a valid timeout still becomes the handler's deadline, a
+//	    malformed one is still rejected without running user code;
+//	(b) the http.Server has a WriteTimeout shorter than the peer's timeout: the handler's deadline
+//	    is the peer's (a handler passes it on to its own downstream calls).
+func contextShapeProbes(c *Ctx) {
+	for _, proto := range []string{"connect", "grpc", "grpcweb"} {
+		for _, tmo := range []string{"5000", "abc"} {
+			var has, ran bool
+			var remaining time.Duration
+			h := connect.NewClientStreamHandler("/s/m", func(ctx context.Context, s *connect.ClientStream[emptypb.Empty]) (*connect.Response[emptypb.Empty], error) {
+				d, ok := ctx.Deadline()
+				ran, has, remaining = true, ok, time.Until(d)
+				return connect.NewResponse(&emptypb.Empty{}), nil
+			})
+			ct := map[string]string{"connect": "application/connect+proto", "grpc": "application/grpc", "grpcweb": "application/grpc-web"}[proto]
+			req := httptest.NewRequest(http.MethodPost, "/s/m", strings.NewReader(""))
+			req.ProtoMajor, req.ProtoMinor, req.Proto = 2, 0, "HTTP/2.0"
+			req.Header.Set("Content-Type", ct)
+			if proto == "connect" {
+				req.Header.Set("Connect-Timeout-Ms", tmo)
+			} else {
+				req.Header.Set("Grpc-Timeout", tmo+"m")
+			}
+			ctx, cancel := context.WithCancel(req.Context())
+			cancel()
+			rec := httptest.NewRecorder()
+			h.ServeHTTP(rec, req.WithContext(ctx))
+			desc := fmt.Sprintf("%s client-stream request with timeout %q whose context is already cancelled when ServeHTTP is entered", proto, tmo)
+			c.Count("tmo-cancelled-context")
+			got := fmt.Sprintf("ran=%v deadline=%v remaining=%v", ran, has, remaining.Round(time.Millisecond))
+			if tmo == "abc" {
+				code, _ := responseErrorCode(proto, "client", rec)
+				if ran || code != 3 {
+					c.Fail("tmo-reject-ran", desc, fmt.Sprintf("%s code=%d", got, code), "a malformed timeout is rejected as invalid_argument without running user code")
+				}
+			} else if !ran || !has || remaining > 5*time.Second || remaining < 3*time.Second {
+				c.Fail("tmo-server-budget", desc, got, "the handler's context gets the deadline the peer's timeout stands for")
+			}
+		}
+	}
+	// (b)
+	for _, kind := range []string{"unary", "server"} {
+		var has bool
+		var remaining time.Duration
+		var h http.Handler
+		if kind == "unary" {
+			h = connect.NewUnaryHandler("/s/m", func(ctx context.Context, r *connect.Request[emptypb.Empty]) (*connect.Response[emptypb.Empty], error) {
+				d, ok := ctx.Deadline()
+				has, remaining = ok, time.Until(d)
+				return connect.NewResponse(&emptypb.Empty{}), nil
+			})
+		} else {
+			h = connect.NewServerStreamHandler("/s/m", func(ctx context.Context, r *connect.Request[emptypb.Empty], s *connect.ServerStream[emptypb.Empty]) error {
+				d, ok := ctx.Deadline()
+				has, remaining = ok, time.Until(d)
+				return nil
+			})
+		}
+		for _, proto := range []string{"connect", "grpc", "grpcweb"} {
+			srv := httptest.NewUnstartedServer(h)
+			srv.EnableHTTP2 = true
+			srv.Config.WriteTimeout = 10 * time.Second
+			srv.StartTLS()
+			cl := connect.NewClient[emptypb.Empty, emptypb.Empty](srv.Client(), srv.URL+"/s/m", protoOptsPB(proto)...)
+			ctx, cancel := context.WithTimeout(context.Background(), 45*time.Second)
+			if kind == "unary" {
+				_, _ = cl.CallUnary(ctx, connect.NewRequest(&emptypb.Empty{}))
+			} else if st, err := cl.CallServerStream(ctx, connect.NewRequest(&emptypb.Empty{})); err == nil {
+				for st.Receive() {
+				}
+				_ = st.Close()
+			}
+			cancel()
+			srv.Close()
+			c.Count("tmo-write-timeout")
+			if !has || remaining > 45*time.Second || remaining < 40*time.Second {
+				c.Fail("tmo-server-budget", fmt.Sprintf("%s %s call with a 45s deadline to an http.Server whose WriteTimeout is 10s", proto, kind), fmt.Sprintf("deadline=%v remaining=%v", has, remaining.Round(time.Millisecond)), "every grammatical timeout a peer sends is honoured exactly")
+			}
+		}
+	}
+}
+
 type captureClient struct{ header http.Header }
 
 func (c *captureClient) Do(req *http.Request) (*http.Response, error) {
@@ -569,6 +656,7 @@ func streamTimeout(c *Ctx) {
 	}
 	timeoutReuseProbes(c)
 	serverBudgetProbes(c)
+	contextShapeProbes(c)
 	for i := 0; i < 200; i++ {
 		d := time.Duration(r.U64() >> uint(1+r.Intn(50)))
 		if d < 2*time.Millisecond {
